@@ -28,7 +28,7 @@ class Job:
                  enforce=None, enforce_rec=False, replace=(), loop_contracts=False, spec=(), flags=(),
                  unwindset=None, unwind=None, timeout=900, mem_gb=24, canary=True, tier='quick',
                  post=None, hooks=None, replay=None, route='loop-free', note='', expect=(), defines=(),
-                 backend='minisat', no_restore=False, bounded=None, known=None, pre_text='', post_spec=()):
+                 backend='minisat', no_restore=False, bounded=None, known=None, pre_text='', post_spec=(), force_globals=()):
         self.name = name
         self.tus = tus
         self.roots = list(roots)
@@ -64,6 +64,7 @@ class Job:
         self.known = known
         self.pre_text = pre_text
         self.post_spec = list(post_spec)
+        self.force_globals = list(force_globals)
 
 
 class NativeJob(Job):
@@ -158,7 +159,7 @@ def read_spec(names):
 
 
 def build_c(job, work, canary=False):
-    text, info = cxx2c.translate(job.tus, job.roots, job.contracts, job.loopc, job.nobody, job.hooks)
+    text, info = cxx2c.translate(job.tus, job.roots, job.contracts, job.loopc, job.nobody, job.hooks, job.force_globals)
     if job.post:
         text = job.post(text)
     # spec functions are pure C over plain integer types and precede the extracted text (contracts call them)
@@ -254,6 +255,19 @@ def pipeline(job, work, canary=False):
         flags += ['--sat-solver', 'cadical']
     elif job.backend in ('cvc5', 'z3'):
         flags += ['--' + job.backend]
+    if canary:
+        # the vacuity guard needs only the CANARY assertion: solve that single property instead of repeating the whole proof
+        rc0, out0, _, _ = run(['cbmc', target] + flags + ['--show-properties', '--json-ui'], timeout=300, mem_gb=job.mem_gb)
+        try:
+            names = []
+            for m in json.loads(out0):
+                if isinstance(m, dict) and 'properties' in m:
+                    names = [p['name'] for p in m['properties'] if 'CANARY' in p.get('description', '')]
+            if names:
+                for nm in names:
+                    flags += ['--property', nm]
+        except Exception:
+            pass
     cmd = ['cbmc', target] + flags + ['--json-ui', '--trace']
     cmds.append(' '.join(cmd))
     outf = base + '.json'
@@ -448,7 +462,7 @@ int main() {
 
 
 def replay_source(job, inputs):
-    spec = ''.join('#include "%s"\n' % n for n in job.spec)
+    spec = ''.join('#include "%s"\n' % ('pos.h' if n.startswith('poswf') else n) for n in job.spec)
     assign = []
     glob = []
     arrays = {}
@@ -486,6 +500,7 @@ def native_replay(job, failed, work):
         if any(not any(k == n or k.startswith(n + '.') or k.startswith(n + '[') for k in inputs) for n in need):
             return False, 'counterexample gives no usable input assignment (missing %s)' % need
         objs, inc = engine_objects(work)
+        objs = [o for o in objs if os.path.basename(o)[:-2] not in job.replay.get('exclude_objs', [])]
         src = replay_source(job, inputs)
         cpp = os.path.join(work, 'replay_%s.cpp' % job.name.replace('/', '_'))
         open(cpp, 'w').write(src)
@@ -512,14 +527,17 @@ def run_check(pid, module, tier, seed):
     results = []
     print('[vcheck] %s tier=%s seed=%d: %d obligation groups, %d workers' % (pid, tier, seed, len(jobs), nwork), flush=True)
     with ThreadPoolExecutor(max_workers=nwork) as ex:
+        from concurrent.futures import as_completed
         futs = [ex.submit(run_job, j, workroot) for j in jobs]
-        for f in futs:
+        for f in as_completed(futs):
             r = f.result()
             results.append(r)
             nfail = len(r.failed)
             print('[cbmc]  %-58s %-9s %4d obligations, %d failed, %6.1fs %s%s' % (
                 pid + '/' + r.job.name, r.status, len(r.props), nfail, r.seconds,
                 ('canary ' + r.canary) if r.canary else '', (' | ' + r.detail[:300].replace('\n', ' ')) if r.detail else ''), flush=True)
+    order = {j.name: i for i, j in enumerate(jobs)}
+    results.sort(key=lambda r: order.get(r.job.name, 0))
     known = [k for k in load_known() if k['property'] == pid]
     violations = []
     known_hits = []
@@ -573,7 +591,7 @@ def run_check(pid, module, tier, seed):
         print(l)
     if exit_code == 2:
         for r in undecided:
-            print('UNDECIDED %s/%s: %s %s' % (pid, r.job.name, r.status, r.detail[:1500]))
+            print('UNDECIDED %s/%s: %s %s' % (pid, r.job.name, r.status, r.detail[:600].replace('\n', ' ')))
     print('[vcheck] %s: %s in %.0fs' % (pid, {0: 'all obligations discharged', 1: 'VIOLATION', 2: 'UNDECIDED (no verdict)'}[exit_code], time.time() - t0))
     if os.environ.get('VERIF_KEEP'):
         print('[vcheck] work dir kept: ' + workroot)
